@@ -196,6 +196,8 @@ class same_class:
         if g.name in self.stop or self.root is None:
             return False
         r = self.root
+        if g.cls is not None and g.cls.name.startswith("_") and g.mod == r.mod:
+            return True  # a private helper class of the same module (state carrier extracted from the explored function)
         if g.cls is not None and r.cls is not None:
             try:
                 return g.cls in r.cls.mro() or r.cls in g.cls.mro()
